@@ -770,7 +770,7 @@ func runSeq(p Profile, seed uint64, cas int) *SeqRes {
 		return res
 	}
 	s.m = NewModel(srv.Root, lim)
-	s.m.AllowNoSpc = p.NearFull
+	s.m.AllowNoSpc = p.NearFull || p.InodeExhaust // a nearly exhausted inode table also refuses creations
 	s.m.ForceSync = !p.Unstable
 	s.names = append([]string{}, namePool...)
 	s.names = append(s.names, longName(lim.NameMax, 'Q'), longName(lim.NameMax-1, 'P'))
